@@ -603,8 +603,8 @@ func main() {
 
 	w := &world{}
 	t := trace.Create(*out)
+	defer w.close() // after the trace has been flushed
 	defer t.Close()
-	defer w.close()
 	if *replay != "" {
 		for _, op := range trace.ReadOps(*replay) {
 			w.run(t, op)
